@@ -323,14 +323,15 @@ class Deadline:
 
         def onalarm(signum, frame):
             raise Hang('no termination within %ds' % self.seconds)
-        self._old = signal.signal(signal.SIGALRM, onalarm)
-        signal.setitimer(signal.ITIMER_REAL, self.seconds, 0.5)     # keeps firing should one be swallowed
+        # CPU time of this process, not wall-clock time: a loop that never ends burns CPU, a loaded machine does not
+        self._old = signal.signal(signal.SIGPROF, onalarm)
+        signal.setitimer(signal.ITIMER_PROF, self.seconds, 0.5)     # keeps firing should one be swallowed
         return self
 
     def __exit__(self, *a):
         import signal
-        signal.setitimer(signal.ITIMER_REAL, 0)
-        signal.signal(signal.SIGALRM, self._old)
+        signal.setitimer(signal.ITIMER_PROF, 0)
+        signal.signal(signal.SIGPROF, self._old)
         return False
 
 
